@@ -15,8 +15,24 @@ from qiskit.primitives.containers.estimator_pub import EstimatorPub
 
 from qiskit.transpiler import PassManager
 
+from dask.utils import SerializableLock
+
 
 T = TypeVar("T")
+
+
+def _pass_manager_lock(pass_manager: PassManager) -> SerializableLock:
+    """
+    A qiskit PassManager keeps the state of a transpilation run on its pass instances. Running the same PassManager
+    from several threads at the same time therefore corrupts the transpilation. This returns the lock which guards
+    the given PassManager. All wrappers within a process which share a PassManager also share this lock.
+
+    :arg pass_manager: PassManager which shall only be run by one thread at a time
+    :type pass_manager: PassManager
+    :return: the lock guarding the pass_manager
+    :rtype: SerializableLock
+    """
+    return SerializableLock(token=f"queasars-pass-manager-{id(pass_manager)}")
 
 
 class TranspilingSamplerV2(BaseSamplerV2):
@@ -34,6 +50,7 @@ class TranspilingSamplerV2(BaseSamplerV2):
         super().__init__()
         self._sampler = sampler
         self._pass_manager = pass_manager
+        self._pass_manager_lock = _pass_manager_lock(pass_manager)
 
     def run(
         self, pubs: Iterable[SamplerPubLike], *, shots: Optional[int] = None
@@ -43,8 +60,13 @@ class TranspilingSamplerV2(BaseSamplerV2):
                 return value
             return (value,)
 
+        def _transpile(circuit):
+            # The pass manager must not be run by several threads at once
+            with self._pass_manager_lock:
+                return self._pass_manager.run(circuits=circuit)
+
         pubs = (_ensure_tuple(pub) for pub in pubs)
-        pubs = ((self._pass_manager.run(circuits=pub[0]), *pub[1:]) for pub in pubs)
+        pubs = ((_transpile(pub[0]), *pub[1:]) for pub in pubs)
         return self._sampler.run(pubs, shots=shots)
 
 
@@ -63,6 +85,7 @@ class TranspilingEstimatorV2(BaseEstimatorV2):
         super().__init__()
         self._estimator = estimator
         self._pass_manager = pass_manager
+        self._pass_manager_lock = _pass_manager_lock(pass_manager)
 
     def run(
         self, pubs: Iterable[EstimatorPubLike], *, precision: Optional[float] = None
@@ -71,7 +94,9 @@ class TranspilingEstimatorV2(BaseEstimatorV2):
         def apply_pass_manager(pub: EstimatorPubLike) -> EstimatorPubLike:
             # The observables must be mapped to the qubit layout of the transpiled circuit
             coerced_pub: EstimatorPub = EstimatorPub.coerce(pub, precision)
-            transpiled_circuit = self._pass_manager.run(coerced_pub.circuit)
+            # The pass manager must not be run by several threads at once
+            with self._pass_manager_lock:
+                transpiled_circuit = self._pass_manager.run(coerced_pub.circuit)
             observables = coerced_pub.observables
             if transpiled_circuit.layout is not None:
                 observables = observables.apply_layout(transpiled_circuit.layout)
